@@ -114,8 +114,11 @@ func (m MapSchema[K, V]) Unserialize(data any) (any, error) {
 
 	t := m.ReflectedType()
 	result := reflect.MakeMapWithSize(t, v.Len())
-	for _, k := range v.MapKeys() {
-		val := v.MapIndex(k)
+	// Iterate instead of looking the keys up again: a NaN key is never found by MapIndex.
+	iter := v.MapRange()
+	for iter.Next() {
+		k := iter.Key()
+		val := iter.Value()
 
 		unserializedKey, err := m.KeysValue.Unserialize(k.Interface())
 		if err != nil {
